@@ -325,6 +325,25 @@ inline void run_workflow(const json& sc) {
                   {"changed", changed}, {"jump", last_only}});
         ++k;
     }
+    // "complete": after the history, every object is brought to its final status by the remaining calls of the linear order; then ALL objects
+    // must hold the canonical data (an object prepared early may be holding references to data that a later call replaced)
+    if (sc.value("complete", false)) {
+        const char* seq[][2] = {{"IC", "compute"}, {"HS", "compute"}, {"SYM", "compute"}, {"S", "compute"}, {"H", "prepare"}, {"H", "compute"}, {"HP", "prepare"}, {"HP", "compute"},
+                                {"DM", "prepare"}, {"DM", "compute"}, {"CX", "prepare"}, {"CX", "compute"}, {"C", "prepare"}, {"C", "compute"}, {"QA", "prepare"}, {"QA", "compute"},
+                                {"OPS", "prepare"}, {"OPS", "compute"}, {"GF", "prepare"}, {"GF", "compute"}, {"X", "prepare"}, {"X", "compute"},
+                                {"SU", "prepare"}, {"SU", "compute"}, {"EA", "prepare"}, {"V", "compute"}};
+        std::string cex2;
+        for (auto& s2 : seq) {
+            std::string o = s2[0], op = s2[1];
+            int stt = w.status(o), fin = (o == "EA") ? 1 : 2;
+            bool need = (op == "prepare") ? (stt < 1) : (stt < fin);
+            if ((o == "IC" || o == "HS") && stt == 2) need = false;
+            if (!need) continue;
+            WfObjects::Res r = w.call(o, op);
+            if (r.out != "ok") { cex2 = o + "." + op + ":" + r.ex; break; }
+        }
+        if (!cex2.empty()) { emit({{"e", "WEnd"}, {"id", id}, {"differs", json::array({"completion failed: " + cex2})}}); return; }
+    }
     // the finished objects hold the canonical data whatever the history was
     json fin = json::array();
     for (auto& n : WfObjects::names()) {
